@@ -15,20 +15,26 @@ namespace {
 // (scratch state kept between calls, left dirty by the exception).  Whether it throws is C07's matter.
 template <class G>
 void rejectedExtraction(const G &g, const Model &m, unsigned long long mask, StepFacts &facts) {
-    std::unordered_set<VertexIndex> S;
-    for (unsigned v = 0; v < m.n && v < 64; ++v)
-        if ((mask >> v) & 1)
-            S.insert(v);
-    S.insert((VertexIndex)(m.n + (mask % 3)));
-    for (int which = 0; which < 2; ++which)
-        try {
-            if (which == 0)
-                (void)algorithms::getSubgraph(g, S);
-            else
-                (void)algorithms::getSubgraphWithRemap(g, S);
-        } catch (const std::exception &) {
-            facts.tag("rejected_extraction_before");
-        }
+    // the position of the bad member in the set's iteration order depends on the insertion order: try both
+    for (int order = 0; order < 2; ++order) {
+        std::unordered_set<VertexIndex> S;
+        if (order == 0)
+            S.insert((VertexIndex)(m.n + (mask % 3)));
+        for (unsigned v = 0; v < m.n && v < 64; ++v)
+            if (((mask >> v) & 1) || ((mask >> (v + 7)) & 1))
+                S.insert(v);
+        if (order == 1)
+            S.insert((VertexIndex)(m.n + (mask % 3)));
+        for (int which = 0; which < 2; ++which)
+            try {
+                if (which == 0)
+                    (void)algorithms::getSubgraph(g, S);
+                else
+                    (void)algorithms::getSubgraphWithRemap(g, S);
+            } catch (const std::exception &) {
+                facts.tag("rejected_extraction_before");
+            }
+    }
 }
 
 template <class G>
